@@ -50,6 +50,7 @@ def run(ctx, chk):
     r10(ctx, chk)
     from .c02 import settings_forwarding_rule
     settings_forwarding_rule(ctx, chk, "C03.R11")     # a missing settings argument shows only on the call that first fills a per-locale cache
+    r12(ctx, chk)
 
 
 def r8(ctx, chk):
@@ -805,3 +806,35 @@ def _stmt_of(fn, expr):
         if not isinstance(s, (ast.If, ast.For, ast.While, ast.Try, ast.With)) and any(x is expr for x in ast.walk(s)):
             return s
     raise AnalysisError("C03.R10", "statement of expression not found")
+
+
+
+def r12(ctx, chk):
+    """a memoising decorator (functools.lru_cache / cache) turns a function into a process-wide table keyed by its ARGUMENTS: everything
+    else the body reads - a module-level object such as the global settings, attributes reached through it - is frozen into the cached
+    result at the first call and served to later calls made under other settings"""
+    rule = "C03.R12"
+    import builtins
+    n = 0
+    for f in list(ctx.ix.funcs.values()):
+        if not f.module.rel.startswith("dateparser/") or f.module.rel.startswith("dateparser/data/") or not isinstance(f.node, ast.FunctionDef):
+            continue
+        decs = [d.split("(")[0].split(".")[-1] for d in f.decorators()]
+        if not any(d in ("lru_cache", "cache") for d in decs):
+            continue
+        n += 1
+        params = set(f.params())
+        local = {x.id for x in ast.walk(f.node) if isinstance(x, ast.Name) and isinstance(x.ctx, (ast.Store, ast.Del))}
+        outside = []
+        for x in iter_own_nodes(f.node):
+            if isinstance(x, ast.Name) and isinstance(x.ctx, ast.Load) and x.id not in params and x.id not in local and not hasattr(builtins, x.id):
+                ent = ctx.ix.lookup_module_attr(f.module, x.id)
+                # functions, classes and modules are fixed; a module-level VARIABLE (an object that can change, like `settings`) is not
+                if isinstance(ent, tuple) and ent[0] == "var":
+                    outside.append(x.id)
+        chk.ob(rule, "%s: a memoised function depends on its arguments only" % f.qual, not outside,
+               "@%s caches by the arguments, but the body also reads the module-level object(s) %s: the first call's state of them is baked into "
+               "every later result for equal arguments" % ([d for d in decs if d in ("lru_cache", "cache")][0], sorted(set(outside))),
+               key={"function": f.key, "construct": "memoised function reads " + ",".join(sorted(set(outside)))[:60]}, file=f.file, function=f.qual,
+               line=f.node.lineno, positive=True)
+    chk.ob(rule, "%d memoising decorator(s) in the library examined" % n, True)
